@@ -229,16 +229,11 @@ func createCompiledRouteHandler(route *ast.Route, bytecode []byte, wsHub *websoc
 		// Unwrap status-carrying results from guards and `> value :: N`
 		// (see compiler.StatusKey).
 		if body, status, ok := unwrapStatusResult(result); ok {
-			ctx.StatusCode = status
-			ctx.ResponseWriter.Header().Set("Content-Type", "application/json")
-			ctx.ResponseWriter.WriteHeader(status)
-			return json.NewEncoder(ctx.ResponseWriter).Encode(body)
+			return writeJSON(ctx, status, body)
 		}
 
 		// Set response
-		ctx.StatusCode = http.StatusOK
-		ctx.ResponseWriter.Header().Set("Content-Type", "application/json")
-		return json.NewEncoder(ctx.ResponseWriter).Encode(result)
+		return writeJSON(ctx, http.StatusOK, result)
 	}
 }
 
@@ -271,10 +266,7 @@ func createRouteHandler(route *ast.Route, interp *interpreter.Interpreter) serve
 			// Reporting those as 500 blames the server for a bad request and
 			// tells the caller nothing about what to fix.
 			if response != nil && response.StatusCode >= 400 && response.StatusCode < 500 {
-				ctx.StatusCode = response.StatusCode
-				ctx.ResponseWriter.Header().Set("Content-Type", "application/json")
-				ctx.ResponseWriter.WriteHeader(response.StatusCode)
-				return json.NewEncoder(ctx.ResponseWriter).Encode(response.Body)
+				return writeJSON(ctx, response.StatusCode, response.Body)
 			}
 			return writeInternalError(ctx, fmt.Errorf("route execution error: %w", err))
 		}
@@ -290,30 +282,31 @@ func createRouteHandler(route *ast.Route, interp *interpreter.Interpreter) serve
 		// Check if the response has a non-JSON Content-Type header set by
 		// special response types (text(), html(), blob()).
 		if ct, ok := response.Headers["Content-Type"]; ok && ct != "" {
+			var payload []byte
+			switch body := response.Body.(type) {
+			case string:
+				payload = []byte(body)
+			case []byte:
+				payload = body
+			default:
+				// Fallback: encode as JSON even with custom content type.
+				// Serialise before the status is committed (see writeJSON).
+				data, encErr := json.Marshal(response.Body)
+				if encErr != nil {
+					return writeInternalError(ctx, fmt.Errorf("failed to encode response: %w", encErr))
+				}
+				payload = append(data, '\n')
+			}
 			ctx.StatusCode = response.StatusCode
 			ctx.ResponseWriter.Header().Set("Content-Type", ct)
 			ctx.ResponseWriter.WriteHeader(response.StatusCode)
-			switch body := response.Body.(type) {
-			case string:
-				_, writeErr := ctx.ResponseWriter.Write([]byte(body))
-				return writeErr
-			case []byte:
-				_, writeErr := ctx.ResponseWriter.Write(body)
-				return writeErr
-			default:
-				// Fallback: encode as JSON even with custom content type
-				return json.NewEncoder(ctx.ResponseWriter).Encode(response.Body)
-			}
+			_, writeErr := ctx.ResponseWriter.Write(payload)
+			return writeErr
 		}
 
 		// Default JSON response, honoring the interpreter's status code
 		// (guards and `> value :: N` set non-200 values).
-		ctx.StatusCode = response.StatusCode
-		ctx.ResponseWriter.Header().Set("Content-Type", "application/json")
-		if response.StatusCode != http.StatusOK {
-			ctx.ResponseWriter.WriteHeader(response.StatusCode)
-		}
-		return json.NewEncoder(ctx.ResponseWriter).Encode(response.Body)
+		return writeJSON(ctx, response.StatusCode, response.Body)
 	}
 }
 
@@ -829,6 +822,22 @@ func sendClientError(ctx *server.Context, message string) error {
 	return json.NewEncoder(ctx.ResponseWriter).Encode(map[string]interface{}{
 		"error": message,
 	})
+}
+
+// writeJSON sends body as a JSON response with the given status. The body is
+// serialised before the status line is committed: encoding straight onto the
+// ResponseWriter after WriteHeader turned a result that cannot be encoded (NaN,
+// +Inf, ...) into a 2xx carrying an error body instead of a 500.
+func writeJSON(ctx *server.Context, status int, body interface{}) error {
+	data, err := json.Marshal(body)
+	if err != nil {
+		return writeInternalError(ctx, fmt.Errorf("failed to encode response: %w", err))
+	}
+	ctx.StatusCode = status
+	ctx.ResponseWriter.Header().Set("Content-Type", "application/json")
+	ctx.ResponseWriter.WriteHeader(status)
+	_, err = ctx.ResponseWriter.Write(append(data, '\n'))
+	return err
 }
 
 // writeInternalError logs the full error server-side and sends a generic 500 to
